@@ -226,6 +226,13 @@ def solve_one(ob, timeout_s, seed, use_fallback=True):
     if ob.expect != 'valid':
         timeout_s = min(timeout_s, 20)   # vacuity guards: inconclusive is tolerated, keep them cheap
     backend = 'z3-5.1'
+    if (ob.expect == 'valid' and 'skolemize-goal' in (getattr(ob, 'flags', None) or ()) and z3.is_quantifier(ob.goal)
+            and ob.goal.is_forall()):
+        # forall-introduction: prove the body for fresh constants (so that spec functions applied to the bound
+        # variables become ground applications and are unfolded)
+        g = ob.goal
+        consts = [z3.FreshConst(g.var_sort(k), 'sk_' + g.var_name(k)) for k in range(g.num_vars())]
+        ob.goal = z3.substitute_vars(g.body(), *reversed(consts))
     unfold = spec_unfoldings(list(ob.hyps) + [ob.goal], fuel=getattr(ob, 'fuel', 1))
     nq = sum(1 for h in ob.hyps if _has_q(h))
     if ob.expect == 'valid' and nq >= 1 and not getattr(ob, 'tactic', None):
